@@ -317,6 +317,8 @@ def _terminates(block) -> bool:
         return True
     if isinstance(s, ast.If):
         return bool(s.orelse) and _terminates(s.body) and _terminates(s.orelse)
+    if isinstance(s, ast.Try) and not s.finalbody:
+        return _terminates(s.orelse if s.orelse else s.body) and all(_terminates(h.body) for h in s.handlers)
     return False
 
 
@@ -658,12 +660,18 @@ class Inliner:
             return None
         return ast.Constant(None)
 
-    def inline_exprs(self, node, d, stack):
+    def inline_exprs(self, node, d, stack, top=None):
+        """`top`: the call that is the whole value of the statement: a branching / refusing helper there is inlined as statements
+        (its refusals stay `raise` statements), only nested ones become conditional expressions"""
         me = self
 
         class X(ast.NodeTransformer):
             def visit_Call(self, n):
                 self.generic_visit(n)
+                if n is top:
+                    r = me.lookup(n)
+                    if r is not None and _contains(r[0], (ast.If, ast.Raise, ast.Try, ast.For, ast.While)):
+                        return n
                 v = me.expr_value(n, d, stack)
                 return v if v is not None else n
 
@@ -724,7 +732,8 @@ class Inliner:
                 continue
             # 1 straight-line helpers become expressions, wherever they are called
             if not isinstance(s, (ast.Try, ast.With, ast.For, ast.While, ast.If, ast.Match)):
-                s = self.inline_exprs(s, d, stack)
+                top = s.value if isinstance(s, (ast.Expr, ast.Assign, ast.AnnAssign, ast.Return)) and isinstance(getattr(s, "value", None), ast.Call) else None
+                s = self.inline_exprs(s, d, stack, top)
             else:
                 for fld in ("test", "iter", "subject"):
                     if hasattr(s, fld):
